@@ -42,7 +42,7 @@ def parseOp (ws : List String) : Option Op :=
   | _ => none
 
 def opMember : Op → Nat
-  | .lead m | .expire m | .getTS m _ | .update m _ _ | .gupdate m _ | .sync m _ _ | .gsync m _
+  | .lead m | .expire m | .getTS m _ | .tryTS m _ | .update m _ _ | .gupdate m _ | .sync m _ _ | .gsync m _
   | .finish m _ | .setTS m _ _ _ _ | .resetMem m => m
   | .resign | .dropKey => 0
 
@@ -120,6 +120,22 @@ def monitor (bits : Nat) (mon : Mon) (op : Op) (impl : String) : Mon × List Str
     | _ => mon.ambig
   ({ evs := evs, idx := mon.idx + 1, stored := stored, phys := phys, ambig := ambig }, f1 ++ f2 ++ f3)
 
+/-- `GenerateTSO` as the iteration of single attempts (`Op.tryTS`, see `getTSLoop_succ`), with the hook ops run
+    during the sleep after the `k`-th failed attempt -/
+def getTSxLoop (m count k : Nat) (hooks : List Op) (s : St) : Nat → Nat → St × Out
+  | 0, _ => (s, .errExceeded)
+  | fuel + 1, i =>
+    let (s1, o) := PdModel.Tso.step s (.tryTS m count)
+    if o = .errExceeded then
+      let s2 := if i = k then hooks.foldl (fun s h => (PdModel.Tso.step s h).1) s1 else s1
+      getTSxLoop m count k hooks s2 fuel (i + 1)
+    else (s1, o)
+
+def getTSx (s : St) (m count k : Nat) (hooks : List Op) : St × Out :=
+  if !(s.mems m).lease then (s, .errNotLeader)
+  else if count = 0 then (s, .errZeroCount)
+  else getTSxLoop m count k hooks s s.cfg.maxRetry 1
+
 def mkCfg (si gap : Nat) (bits : Nat := 0) (suffix : Nat := 0) : Cfg :=
   { guard := PdModel.Generated.Tso.updateTimestampGuard, saveInterval := si,
     maxLogical := PdModel.Generated.Tso.maxLogical, maxResetGapMs := gap,
@@ -156,6 +172,12 @@ def step (d : DState) (opLine : String) (impl : String) : DState × StepOut :=
       (if gs.all (fun e => decide (e.ms * 1000000 < st)) then [] else
         [s!"sig=C02.concurrent-grant-not-below-stored-window stored={st}"])
     (d, { model := impl, fails := fails })
+  | "gettsx" :: m :: c :: k :: hooks =>
+    -- GenerateTSO whose k-th sleep inside the retry loop is used by other activity (the hook ops)
+    let hookOps := hooks.filterMap (fun h => parseOp (h.splitOn ":"))
+    let (s', o) := getTSx d.model (natArg m) (natArg c) (natArg k) hookOps
+    let (mon', fails) := monitor d.model.cfg.bits d.mon (.getTS (natArg m) (natArg c)) impl
+    ({ d with model := s', mon := mon' }, { model := s!"{Out.str o} {viewStr s' (natArg m)}", fails := fails })
   | ws =>
     match parseOp ws with
     | none => (d, { model := "bad-op @0 0:0:0:0" })
